@@ -268,6 +268,9 @@ def native_layouts(chk):
     layouts = {}
     for nm, t in (('probe', base), ('long-lines', long_lines)):
         layouts[nm + ' LF'] = t
+        # same bytes except that every second line feed is a blank: same length, other line structure, analysed right after the
+        # original in the same process and under the same file number
+        layouts[nm + ' LF, every second line feed a blank (same length)'] = c15.twin(t)
         layouts[nm + ' CRLF'] = t.replace('\n', '\r\n')
         layouts[nm + ' CRLF no final line end'] = t.replace('\n', '\r\n').rstrip('\r\n')
         layouts[nm + ' no final line feed'] = t.rstrip('\n')
